@@ -193,7 +193,37 @@ def conic_conic_stream(ctx, n):
             ctx.disagree(f"C15:conic-conic:{name}:{why}", desc, expected[name], [np.round(p, 5).tolist() for p in got], replay=[desc])
 
 
+def moved_stream(ctx, n):
+    """components / intersect of a degenerate conic that was moved AFTER its components had been asked for once"""
+    import geometer as g
+    rng = ctx.rng
+    for k in range(n):
+        a = [rng.randint(-3, 3), rng.randint(-3, 3), rng.randint(-3, 3)]
+        b = [rng.randint(-3, 3), rng.randint(-3, 3), rng.randint(-3, 3)]
+        if not (any(a[:2]) and any(b[:2])) or not np.any(np.cross(a, b)):
+            continue
+        shift = [float(rng.randint(-4, 4)), float(rng.randint(1, 4))]
+        desc = f"moved degenerate conic lines {a} {b} shift {shift}"
+        ctx.case(desc)
+        ctx.count("moved-components")
+        def run():
+            c = g.Conic.from_lines(g.Line(np.array(a, dtype=float)), g.Line(np.array(b, dtype=float)))
+            first = c.components                      # ask once before moving
+            moved = g.translation(*shift) * c
+            return first, moved, moved.components
+        r = call_impl(run)
+        if r[0] != "ok":
+            ctx.disagree(f"C15:moved:error:{r[1]}", desc, "components of the moved conic", r[1:3], replay=[desc])
+            continue
+        # the moved lines: l' = (a0, a1, a2 - a0 s0 - a1 s1)
+        exp = [np.array([v[0], v[1], v[2] - v[0] * shift[0] - v[1] * shift[1]], dtype=float) for v in (a, b)]
+        got = [np.asarray(x.array) for x in r[1][2]]
+        if not match_set(got, exp, 1e-7):
+            ctx.disagree("C15:moved:components", desc, [e.tolist() for e in exp], [np.round(x, 6).tolist() for x in got], replay=[desc])
+
+
 def correspondence(ctx):
+    moved_stream(ctx, ctx.budget(40, 400))
     lines_stream(ctx, ctx.budget(300, 0))
     planes_stream(ctx, ctx.budget(150, 2000))
     nondegenerate_stream(ctx, ctx.budget(80, 800))
